@@ -490,6 +490,62 @@ class Function:
                     out.append((tt.ops[0], True, tt))
                 elif tt.x["succ"][1] is c.bb:
                     out.append((tt.ops[0], False, tt))
+        # modus tollens over a short-circuit:  !(a && b) together with a  gives  !b   (and  a || b  false with ... is covered
+        # above).  The phi is  [false, A], [b, B]  where A branches on a; if a is known (the same comparison, or its
+        # negation with the opposite outcome, among the facts) the phi's value is b's.
+        def _same_cmp(c1, c2):
+            """+1 same comparison, -1 negated comparison, 0 unrelated"""
+            if not (c1.is_inst and c2.is_inst and c1.op == "icmp" and c2.op == "icmp"):
+                return 0
+            def same_v(a, b):
+                a, b = strip_casts(a), strip_casts(b)
+                if a is b:
+                    return True
+                return a.is_const and b.is_const and ((a.is_null and b.is_null) or (a.is_int and b.is_int and a.uval == b.uval))
+            if not (same_v(c1.ops[0], c2.ops[0]) and same_v(c1.ops[1], c2.ops[1])):
+                return 0
+            if c1.pred == c2.pred:
+                return 1
+            neg = {"eq": "ne", "ne": "eq", "ult": "uge", "uge": "ult", "ugt": "ule", "ule": "ugt", "slt": "sge", "sge": "slt", "sgt": "sle", "sle": "sgt"}
+            return -1 if neg.get(c1.pred) == c2.pred else 0
+        changed = True
+        rounds = 0
+        while changed and rounds < 4:
+            changed = False
+            rounds += 1
+            for (c, o, t) in list(out):
+                if not (o in (True, False) and c.is_inst and c.op == "phi" and c.ty == "i1"):
+                    continue
+                consts = [(v, p) for v, p in zip(c.ops, c.x["inc"]) if v.is_const and v.is_int]
+                rest = [(v, p) for v, p in zip(c.ops, c.x["inc"]) if not (v.is_const and v.is_int)]
+                if len(rest) != 1 or not consts or any(bool(v.sval) != o for v, p in consts):
+                    continue
+                # the known outcome equals the short-cut constant: either the short cut was taken or b has that value
+                ok_all = True
+                for (v, p) in consts:
+                    tt = p.term
+                    if not (tt.op == "br" and len(tt.x["succ"]) == 2 and tt.ops[0].is_inst):
+                        ok_all = False
+                        break
+                    a = tt.ops[0]
+                    took = tt.x["succ"][0] is c.bb      # outcome of a with which the short cut is taken
+                    known = None
+                    for (c2, o2, t2) in out:
+                        if o2 not in (True, False):
+                            continue
+                        r = 1 if c2 is a else _same_cmp(a, c2)
+                        if r == 1:
+                            known = o2
+                        elif r == -1:
+                            known = not o2
+                    if known is None or known == took:
+                        ok_all = False          # the short cut may have been taken
+                        break
+                if ok_all:
+                    fact = (rest[0][0], o, t)
+                    if fact not in out:
+                        out.append(fact)
+                        changed = True
         return out
 
     # ---- loops
